@@ -19,6 +19,21 @@ pub struct RefSign {
     pub count: u32,
     /// A buffer of the wrong length was dropped during the current pixel transfer (don't-care 1).
     pub bad_page: bool,
+    /// The current pixel transfer has been well formed so far: every page started with an offset-0 chunk, every
+    /// other chunk carried the offset at which it was appended, no buffer outgrew or fell short of a page.
+    pub clean: bool,
+}
+
+/// What the statement fixes about `pages()` after a step.
+#[derive(Clone, Copy, PartialEq, Eq, Debug)]
+pub enum PagesRule {
+    /// exactly the reference's pages
+    Exact,
+    /// only "complete pages of the configured size" (during a transfer the moment a page becomes visible is open)
+    SizeOnly,
+    /// as SizeOnly, and the reference continues from the implementation's pages (a transfer that failed, was
+    /// malformed or was abandoned: which of its data survives is open)
+    Adopt,
 }
 
 /// Where the statement leaves the behaviour open; the lock-step oracle adopts the implementation's choice.
@@ -33,7 +48,7 @@ pub enum Open {
 
 impl RefSign {
     pub fn new(addr: u16, automatic: bool) -> Self {
-        RefSign { addr, automatic, state: State::Unconfigured, w: 0, h: 0, typ: None, pages: vec![], page_dims: vec![], buf: vec![], count: 0, bad_page: false }
+        RefSign { addr, automatic, state: State::Unconfigured, w: 0, h: 0, typ: None, pages: vec![], page_dims: vec![], buf: vec![], count: 0, bad_page: false, clean: true }
     }
 
     fn reset(&mut self) {
@@ -56,7 +71,10 @@ impl RefSign {
                 self.page_dims.push((self.w, self.h));
             } else {
                 self.bad_page = true;
+                self.clean = false;
             }
+        } else {
+            self.clean = false;
         }
     }
 
@@ -99,6 +117,7 @@ impl RefSign {
                         self.pages.clear();
                         self.page_dims.clear();
                         self.bad_page = false;
+                        self.clean = true;
                     }
                     Operation::ShowLoadedPage => self.state = State::PageShowInProgress,
                     Operation::LoadNextPage => self.state = State::PageLoadInProgress,
@@ -124,9 +143,14 @@ impl RefSign {
                     State::PixelsInProgress => {
                         if *off == 0 {
                             self.flush();
+                        } else if *off as usize != (self.buf.len() & 0xFFFF) {
+                            self.clean = false;
                         }
                         self.buf.extend_from_slice(d);
                         self.count += 1;
+                        if self.w == 0 || self.h == 0 || self.buf.len() as u64 > padded(self.w as u64, self.h as u64) {
+                            self.clean = false;
+                        }
                     }
                     _ => {}
                 }
@@ -144,9 +168,12 @@ impl RefSign {
                     State::PixelsInProgress => {
                         self.flush();
                         self.count = 0;
-                        if matched && self.bad_page {
-                            // adopt: caller sets the state from the implementation
-                            self.state = State::PixelsReceived;
+                        if !self.clean {
+                            // adopt: caller sets the state from the implementation. In a malformed transfer the
+                            // statement's "chunks it accepted" is open (an implementation may refuse a chunk that
+                            // is out of sequence or would overflow the page), so both outcomes are allowed
+                            self.state = if matched { State::PixelsReceived } else { State::PixelsFailed };
+                            self.clean = true; // the transfer is over; the flag is meaningful during a transfer only
                             (None, Open::ReceivedOrFailed)
                         } else {
                             self.state = if matched { State::PixelsReceived } else { State::PixelsFailed };
@@ -177,13 +204,48 @@ impl RefSign {
         }
     }
 
+    /// `step` plus the rule for `pages()` after it.
+    pub fn step2(&mut self, m: &Message<'_>) -> (Option<Message<'static>>, Open, PagesRule) {
+        let before = self.state;
+        let own = Address(self.addr);
+        let resets = match m {
+            Message::Goodbye(a) if *a == own => true,
+            Message::RequestOperation(a, Operation::FinishReset) if *a == own && before == State::ReadyToReset => true,
+            _ => false,
+        };
+        let (reply, open) = self.step(m);
+        let after = self.state;
+        let rule = if resets {
+            PagesRule::Exact
+        } else if before == State::PixelsInProgress {
+            if after == State::PixelsInProgress {
+                PagesRule::SizeOnly
+            } else if matches!(m, Message::DataChunksSent(_)) && open == Open::No && after == State::PixelsReceived {
+                PagesRule::Exact
+            } else {
+                PagesRule::Adopt
+            }
+        } else if after == State::PixelsInProgress {
+            PagesRule::SizeOnly
+        } else {
+            PagesRule::Exact
+        };
+        (reply, open, rule)
+    }
+
+    /// Continues from the implementation's pages (PagesRule::Adopt).
+    pub fn adopt_pages(&mut self, pages: Vec<Vec<u8>>) {
+        self.page_dims = pages.iter().map(|_| (self.w, self.h)).collect();
+        self.pages = pages;
+    }
+
     /// Applies the implementation's choice for an open step.
     pub fn adopt(&mut self, open: Open, impl_state: State, impl_pages: usize) {
         match open {
             Open::No => {}
             Open::ReceivedOrFailed => {
-                if impl_state == State::PixelsFailed {
-                    self.state = State::PixelsFailed;
+                if impl_state == State::PixelsFailed || impl_state == State::PixelsReceived {
+                    self.state = impl_state;
                 }
             }
             Open::MayFlushWhileIdle => {
